@@ -282,6 +282,7 @@ def suite_fonts(ctx, res, n, formats=COLR1_FORMATS, n_tiny=0):
     cases += [fontgen.make_origin_anchored_case(ctx.rng.getrandbits(32), fmt=formats[i % len(formats)]) for i in range(n_tiny // 2)]
     # every source of alpha on a solid fill (opacity, hex alpha digits, palette variables with either)
     cases += [fontgen.make_var_opacity_case(ctx.rng.getrandbits(32), fmt=formats[i % len(formats)]) for i in range(max(2, n_tiny // 2))]
+    cases += [fontgen.make_shared_bbox_gradient_case(ctx.rng.getrandbits(32), fmt=formats[i % len(formats)]) for i in range(max(3, n_tiny // 2))]
     cases += [fontgen.make_nested_group_case(ctx.rng.getrandbits(32), fmt=formats[i % len(formats)]) for i in range(max(2, n_tiny // 2))]
     for case in cases:
         out = fontgen.build(case)
